@@ -30,22 +30,22 @@ def angularSpectrum(inputComplexAmp, wvl, inputSpacing, outputSpacing, z):
     N = inputComplexAmp.shape[0] #Assumes Uin is square.
     k = 2*numpy.pi/wvl     #optical wavevector
 
-    (x1,y1) = numpy.meshgrid(inputSpacing*numpy.arange(-N/2,N/2),
-                             inputSpacing*numpy.arange(-N/2,N/2))
+    (x1,y1) = numpy.meshgrid(inputSpacing*(numpy.arange(N) - N//2),
+                             inputSpacing*(numpy.arange(N) - N//2))
     r1sq = (x1**2 + y1**2) + 1e-10
 
     #Spatial Frequencies (of source plane)
     df1 = 1. / (N*inputSpacing)
-    fX,fY = numpy.meshgrid(df1*numpy.arange(-N/2,N/2),
-                           df1*numpy.arange(-N/2,N/2))
+    fX,fY = numpy.meshgrid(df1*(numpy.arange(N) - N//2),
+                           df1*(numpy.arange(N) - N//2))
     fsq = fX**2 + fY**2
 
     #Scaling Param
     mag = float(outputSpacing)/inputSpacing
 
     #Observation Plane Co-ords
-    x2,y2 = numpy.meshgrid( outputSpacing*numpy.arange(-N/2,N/2),
-                            outputSpacing*numpy.arange(-N/2,N/2) )
+    x2,y2 = numpy.meshgrid( outputSpacing*(numpy.arange(N) - N//2),
+                            outputSpacing*(numpy.arange(N) - N//2) )
     r2sq = x2**2 + y2**2
 
     #Quadratic phase factors
@@ -78,12 +78,12 @@ def oneStepFresnel(Uin, wvl, d1, z):
     k = 2*numpy.pi/wvl  #optical wavevector
 
     #Source plane coordinates
-    x1,y1 = numpy.meshgrid( numpy.arange(-N/2.,N/2.) * d1,
-                            numpy.arange(-N/2.,N/2.) * d1)
+    x1,y1 = numpy.meshgrid( (numpy.arange(N) - N//2) * d1,
+                            (numpy.arange(N) - N//2) * d1)
     #observation plane coordinates
     d2 = wvl*z/(N*d1)
-    x2,y2 = numpy.meshgrid( numpy.arange(-N/2.,N/2.) * d2,
-                            numpy.arange(-N/2.,N/2.) * d2 )
+    x2,y2 = numpy.meshgrid( (numpy.arange(N) - N//2) * d2,
+                            (numpy.arange(N) - N//2) * d2 )
 
     #evaluate Fresnel-Kirchoff integral
     A = 1/(1j*wvl*z)
@@ -113,8 +113,8 @@ def twoStepFresnel(Uin, wvl, d1, d2, z):
     k = 2*numpy.pi/wvl #optical wavevector
 
     #source plane coordinates
-    x1, y1 = numpy.meshgrid( numpy.arange(-N/2,N/2) * d1,
-                            numpy.arange(-N/2.,N/2.) * d1 )
+    x1, y1 = numpy.meshgrid( (numpy.arange(N) - N//2) * d1,
+                            (numpy.arange(N) - N//2) * d1 )
 
     #magnification
     m = float(d2)/d1
@@ -125,8 +125,8 @@ def twoStepFresnel(Uin, wvl, d1, d2, z):
     else:
         Dz1 = z / (1-m) #propagation distance
     d1a = wvl * abs(Dz1) / (N*d1) #coordinates
-    x1a, y1a = numpy.meshgrid( numpy.arange( -N/2.,N/2.) * d1a,
-                              numpy.arange( -N/2.,N/2.) * d1a )
+    x1a, y1a = numpy.meshgrid( (numpy.arange(N) - N//2) * d1a,
+                              (numpy.arange(N) - N//2) * d1a )
 
     #Evaluate Fresnel-Kirchhoff integral
     A = 1./(1j * wvl * Dz1)
@@ -137,8 +137,8 @@ def twoStepFresnel(Uin, wvl, d1, d2, z):
     Dz2 = z - Dz1
 
     #coordinates
-    x2,y2 = numpy.meshgrid( numpy.arange(-N/2., N/2.) * d2,
-                            numpy.arange(-N/2., N/2.) * d2 )
+    x2,y2 = numpy.meshgrid( (numpy.arange(N) - N//2) * d2,
+                            (numpy.arange(N) - N//2) * d2 )
 
     #Evaluate the Fresnel diffraction integral
     A = 1. / (1j * wvl * Dz2)
@@ -149,9 +149,11 @@ def twoStepFresnel(Uin, wvl, d1, d2, z):
     #A single-FFT Fresnel step over a negative distance lands on a grid whose
     #axes point the other way. Whenever m != 1 exactly one of the two steps
     #does (Dz2 = -m*Dz1), so undo the resulting point reflection about the
-    #centre sample to return the field with the orientation of the input
+    #centre sample N//2 to return the field with the orientation of the input
+    #(reversing an axis leaves that sample in place for odd N and moves it
+    #one sample down for even N)
     if Dz1 * Dz2 < 0:
-        Uout = numpy.roll(Uout[::-1, ::-1], 1, axis=(0, 1))
+        Uout = numpy.roll(Uout[::-1, ::-1], 1 - N % 2, axis=(0, 1))
 
     return Uout
 
@@ -175,7 +177,7 @@ def lensAgainst(Uin, wvl, d1, f):
     k = 2*numpy.pi/wvl  #Optical Wavevector
 
     #Observation plane coordinates
-    fX = numpy.arange( -N/2.,N/2.)/(N*d1)
+    fX = (numpy.arange(N) - N//2)/(N*d1)
 
     #Observation plane coordinates
     x2,y2 = numpy.meshgrid(wvl * f * fX, wvl * f * fX)
